@@ -134,14 +134,29 @@ CInv(t) ==
                                   floor |-> maxdone.id, lo |-> clock]]
   /\ UNCHANGED <<cfg, clock, maxdone, issued>>
 
+(* An id already returned can only be returned again by a call that is     *)
+(* pending now and began below it: every later call begins above maxdone.  *)
+(* Ids no pending call (other than t, which returns now) could still       *)
+(* repeat may be dropped (keeping one that cannot recur is harmless),      *)
+(* which keeps `issued` small in long histories.                           *)
+StillPossible(t, x) ==
+  \E u \in DOMAIN pend :
+    u # t /\ pend[u].st = "called" /\ (~pend[u].has \/ Less(pend[u].floor, x))
+
+(* Nothing new can be dropped unless the call that returns began lowest.    *)
+SlowestCall(t) ==
+  \A u \in DOMAIN pend :
+    (u # t /\ pend[u].st = "called") =>
+       (~pend[t].has \/ (pend[u].has /\ ~Less(pend[u].floor, pend[t].floor)))
+
 (* bookkeeping of a response; ResOK(t, id) is the property about it *)
 CRes(t, id) ==
   /\ pend[t].st = "called"
   /\ pend' = [pend EXCEPT ![t] = IdleP]
   /\ maxdone' = NewMax(id)
-  /\ issued' = IF \A u \in DOMAIN pend : u = t \/ pend[u].st = "idle"
-               THEN {}              \* nobody overlaps: later calls start above maxdone anyway
-               ELSE issued \cup {id}
+  /\ issued' = IF SlowestCall(t)
+               THEN {x \in issued \cup {id} : StillPossible(t, x)}
+               ELSE IF StillPossible(t, id) THEN issued \cup {id} ELSE issued
   /\ UNCHANGED <<cfg, clock>>
 
 CGen(now, id) ==
